@@ -120,7 +120,7 @@ def subset_bits():
     rules = []
     rest = body
     for mm in re.finditer(r"if\s+self\.intersects\(([^)]*)\)\s*\{\s*self\s*\|=\s*InfoSubset::([A-Z_]+)\s*;?\s*\}", body):
-        trig = [x.strip() for x in mm.group(1).split("|")]
+        trig = [x.strip() for x in mm.group(1).strip().rstrip(",").split("|")]
         names = []
         for x in trig:
             m2 = re.fullmatch(r"InfoSubset::([A-Z_]+)", x)
